@@ -34,7 +34,7 @@ ASSUMPTIONS = [
     "node names are unique within each tree (the property's premise)",
     "the leaf_syntenies of the input embedded in an output are not compared (not among the fields the statement lists)",
 ]
-BUDGET = {"quick": 300, "thorough": 3000}
+BUDGET = {"quick": 900, "thorough": 3000}
 COLORS = ["FF0000", "00AA00", "0000FF"]
 
 
@@ -57,6 +57,12 @@ def name_schemes(O, S, leafmap):
         base = prefix + "abcdefghijklmnop"[v // 2]
         return base.upper() if v % 2 else base
     out["casepairs"] = ({v: cased("g", v) for v in range(O.n)}, {v: cased("", v) for v in range(S.n)})
+    # every object leaf carries, as the <species>_ prefix of its name, ANOTHER species leaf than the one it is assigned to
+    # (in the other letter case): the explicit assignment of the serialised form must win over anything read off the names
+    sl = list(S.leaves)
+    other = {x: sl[(i + 1) % len(sl)] for i, x in enumerate(sl)}
+    out["misleading"] = ({v: (f"N{v}" if O.children[v] else f"SP{other[leafmap[v]]}_{v}") for v in range(O.n)},
+                         {v: f"sp{v}" for v in range(S.n)})
     return out
 
 
